@@ -11,7 +11,12 @@ def run(tier, seed, t0):
                   ("connclose_cross", 150, 2500), ("mixed", 150, 2000)],
         own_kinds=('connclose',),
         mc_jobs=[("MC_Conn_close_q.cfg", None, "quick"), ("MC_Conn_close.cfg", None, "thorough"),
-                 ("MC_Conn_close_bug.cfg", "SealedShrinks", None)],
+                 ("MC_Conn_close_bug.cfg", "SealedShrinks", None),
+                 # towards a protocol-abiding server (own view of open channels / consumers, crossing closes
+                 # answered, nothing sent for what it closed) the I/O thread never ends with an internal error:
+                 # Connection::close reports the server's close or Ok; without compliance the invariant fails
+                 ("MC_Conn_compliant_q.cfg", None, "quick"), ("MC_Conn_compliant.cfg", None, "thorough"),
+                 ("MC_Conn_compliant_bug.cfg", "NoInternalError", None)],
         rule="session states (1-3 channels, consumers with deliveries, calls in flight with withheld replies, queued "
              "publishes, half-received content, output stalled by a zero write budget) closed by the client (server "
              "answers CloseOk, with or without closing the socket at once) or by the server (4 reply codes x 4 texts incl. "
